@@ -103,12 +103,16 @@ SYNTH = {
     "a1": dict(kind="audio", durations=[44100] * 4, seed=14, track_id=2),
     "ev": dict(kind="video", durations=[960] * 4, seed=15, track_id=3, encrypted=True),
     "ea": dict(kind="audio", durations=[44100] * 4, seed=16, track_id=4, encrypted=True, kid=KID2),
+    # further encrypted tracks that SHARE the key id of "ev" (and of the fixture "fe"): the normal layout of an
+    # encrypted stream - several representations, one key
+    "e2": dict(kind="video", durations=[960] * 4, seed=19, track_id=3, encrypted=True, payload_size=260),
+    "eb": dict(kind="audio", durations=[44100] * 4, seed=20, track_id=4, encrypted=True),
     "vz": dict(kind="video", durations=[960] * 4, seed=17, track_id=1, lang="zzz"),
     "s1": dict(kind="video", durations=[960], seed=18, track_id=1),          # one fragment only
 }
 FIXTURES = {"ft": "bbb/bbb_t1.mp4", "fa": "bbb/bbb_a1.mp4", "fv": "bbb/bbb_v7.mp4", "fe": "bbb/bbb_a1_enc.mp4"}
 KINDS = list(SYNTH) + ["jk", "em"] + list(FIXTURES)
-MIME = {"a1": "audio/mp4", "ea": "audio/mp4", "fa": "audio/mp4", "fe": "audio/mp4", "ft": "application/mp4"}
+MIME = {"a1": "audio/mp4", "ea": "audio/mp4", "eb": "audio/mp4", "fa": "audio/mp4", "fe": "audio/mp4", "ft": "application/mp4"}
 
 
 @functools.lru_cache(maxsize=None)
